@@ -541,6 +541,16 @@ class Repo:
         return dotted == PKG or dotted in self.modules
 
 
+_KEEPALIVE: list = []
+
+
+def keep(node):
+    """Synthetic AST nodes are registered in id()-keyed tables (scopes, resolution cache); keep them
+    alive for the whole run so that their ids are never reused by later nodes."""
+    _KEEPALIVE.append(node)
+    return node
+
+
 def norm_text(node) -> str:
     """Normalised construct text used to key findings (never line numbers)."""
     if isinstance(node, str):
